@@ -7,3 +7,4 @@ import CspuzModel.Properties.C15
 #print axioms Cspuz.C15.C15_rooms
 #print axioms Cspuz.C15.C15_valued_rooms
 #print axioms Cspuz.C15.C15_puzzles_wf
+#print axioms Cspuz.C15.C15_wf_ctorOk
